@@ -4,7 +4,7 @@ From Coq Require Import String List NArith ZArith Bool.
 From J5V.lib Require Import Outcome.
 From J5V.model Require Import ReflectDesc ReflectSchema Reflect ReflectSpec.
 From J5V.gen Require ReflectGen.
-From J5V.proofs Require Import ReflectProofs ExportProofs ReflectInvProofs ReflectPathProofs ReflectFuelProofs ReflectFlattenProofs ReflectCodecProofs ReflectDeclProofs.
+From J5V.proofs Require Import ReflectProofs ExportProofs ReflectInvProofs ReflectPathProofs ReflectFuelProofs ReflectFlattenProofs ReflectCodecProofs ReflectDeclProofs ReflectClassProofs.
 From J5V.model Require Import Export ReflectDecl.
 Import ListNotations.
 
@@ -165,16 +165,30 @@ Theorem C18_reader_links_the_declared_schemas : forall D, wf_keys D -> forall fs
 Proof. exact reflect_declared. Qed.
 Print Assumptions C18_reader_links_the_declared_schemas.
 
-(* ---- cache transparency (SchemaCache.Schema), values: for any two call histories (successful and
-   failed calls, any messages, any order) the answers for one message are the SAME schema, and the
-   caches hold the same schemas for its exposed oneofs; in particular the answer of a cache with any
-   history equals the answer of a fresh cache whenever both answer. A failed call leaves the cache
-   exactly as it was (the roll-back; in the model by definition of cache_schema, on the code by the
-   shared-cache history stream), and a name already held is answered from the cache, unchanged.
-   NOT proved: that a cache with a history answers Ok exactly when a fresh cache does (class
-   transparency; needs the characterisation of the reader's acceptance by the closure of the
-   message): that half is checked per case (oracle "answer depends on earlier failed builds",
-   correspondence of the history stream) and stays partial. *)
+(* ---- cache transparency (SchemaCache.Schema), in full (hypothesis wf_keys): whatever calls were made
+   before (successful and failed, any messages, any order: [cache_reach]), the cache answers a message
+   with the schema r exactly when a fresh cache answers it with r: the same schema, or a failure in
+   both. Two halves: VALUES (the answers of two histories are the same schema: every linked entry is
+   the declared schema of its descriptor, ReflectDeclProofs) and CLASS (a message linked in one
+   reachable cache can be built from any other reachable cache that lacks it: every local check is
+   decided by the descriptors, every nested message is linked in the first cache as well, and a
+   flatten cycle found would be a cycle of the first cache; ReflectClassProofs.completion). A failed
+   call leaves the cache exactly as it was (the roll-back; in the model by definition of
+   cache_schema, on the code by the shared-cache history stream), a name already held is answered
+   from the cache, unchanged. *)
+Theorem C18_cache_transparent : forall D, wf_keys D -> forall st m r,
+  cache_reach D st -> In m (d_msgs D) ->
+  (snd (cache_schema D (size D) st m) = Ok r <-> snd (cache_schema D (size D) [] m) = Ok r).
+Proof. exact cache_transparent. Qed.
+Print Assumptions C18_cache_transparent.
+
+Theorem C18_cache_history_independent : forall D, wf_keys D -> forall st st' m r,
+  cache_reach D st -> cache_reach D st' -> In m (d_msgs D) ->
+  (snd (cache_schema D (size D) st m) = Ok r <-> snd (cache_schema D (size D) st' m) = Ok r).
+Proof. exact cache_history_independent. Qed.
+Print Assumptions C18_cache_history_independent.
+
+(* the values half on its own, with the schemas of the exposed oneofs *)
 Theorem C18_cache_answers_agree : forall D, wf_keys D -> forall st st' m r r',
   cache_reach D st -> cache_reach D st' -> In m (d_msgs D) ->
   snd (cache_schema D (size D) st m) = Ok r -> snd (cache_schema D (size D) st' m) = Ok r' ->
@@ -244,6 +258,14 @@ Definition collision_desc : desc :=
      d_files := [File (bytes "p/v1/a.proto") (bytes "p.v1")
                    [bytes "p.v1.Col"; bytes "p.v1.Col.Inner"; bytes "p.v1.Col_Inner"] []] |}.
 
+(* the reflected set and the entry of the third message, as closed terms (so that the checks below are
+   conversions of closed terms) *)
+Definition collision_set : sset :=
+  match reflect collision_desc (d_files collision_desc) with Ok st => st | _ => [] end.
+Definition collision_m : msgd := nth 2 (d_msgs collision_desc) (Msg [] [] [] [] [] None None []).
+Definition collision_r : root :=
+  match lookup collision_set (msg_key collision_m) with Some (Linked r) => r | _ => REnum [] [] [] [] [] end.
+
 Theorem C18_split_name_collision_refuted :
   enums_nonempty collision_desc /\
   (exists S m r, reflect collision_desc (d_files collision_desc) = Ok S /\ length S = 2%nat /\
@@ -255,7 +277,8 @@ Proof.
   assert (Hw : exists S m r, reflect collision_desc (d_files collision_desc) = Ok S /\ length S = 2%nat /\
      In m (d_msgs collision_desc) /\ lookup S (msg_key m) = Some (Linked r) /\
      codec_classes collision_desc S m r = (0%N, 1%N)).
-  { eexists. eexists. eexists. split; [vm_compute; reflexivity|]. split; [reflexivity|].
+  { exists collision_set, collision_m, collision_r.
+    split; [vm_compute; reflexivity|]. split; [vm_compute; reflexivity|].
     split; [right; right; left; reflexivity|]. split; vm_compute; reflexivity. }
   split; [exact Hw|].
   intros H. destruct Hw as (S & m & r & HS & _ & Hm & Hl & Hc).
@@ -385,6 +408,7 @@ Qed.
 (* the hypotheses of C18_codec_usable_on_supported are met by both messages of the example (an object
    with a recursive field, an array of objects, a bool with a rule, an enum; an object that flattens
    the first), and the conclusion computes *)
+Definition ex_set : sset := match reflect ex_desc (d_files ex_desc) with Ok st => st | _ => [] end.
 Example C18_example_codec :
   exists S, reflect ex_desc (d_files ex_desc) = Ok S /\
     forallb (fun m =>
@@ -398,7 +422,7 @@ Example C18_example_codec :
           end
       | _ => false
       end) (d_msgs ex_desc) = true.
-Proof. eexists. split; vm_compute; reflexivity. Qed.
+Proof. exists ex_set. split; vm_compute; reflexivity. Qed.
 
 (* the cache theorems' hypotheses on the example: two histories (Peer then Node; Node alone) reach
    states that answer Node with the same schema, which is the declared one *)
